@@ -544,6 +544,7 @@ fn growth_scheme() -> &'static Scheme {
         b.add_function("score", WorkFn).unwrap();
         b.add_function("lower", crate::funcs::definition(&crate::funcs::sig("lower").unwrap())).unwrap();
         b.add_function("len", crate::funcs::definition(&crate::funcs::sig("len").unwrap())).unwrap();
+        b.add_function("addi", crate::funcs::definition(&crate::funcs::sig("addi").unwrap())).unwrap();
         b.build()
     })
 }
@@ -581,17 +582,40 @@ fn growth_text(shape: usize, depth: usize) -> String {
             }
             s
         }
-        _ => {
+        5 => {
             let mut s = "len(s) == 1".to_string();
             for _ in 0..depth {
                 s = format!("score((score({s}) == 1 xor t)) == 1");
             }
             s
         }
+        // nests that must be REJECTED (the fault sits at the bottom, a counted call beside it at
+        // every level): an error must not be retried level by level either
+        6 => {
+            let mut s = "no.such.field".to_string();
+            for _ in 0..depth {
+                s = format!("addi(score(t), {s})");
+            }
+            format!("{s} == 1")
+        }
+        7 => {
+            let mut s = "nosuchfn(1)".to_string();
+            for _ in 0..depth {
+                s = format!("addi(score(t), {s})");
+            }
+            format!("{s} == 1")
+        }
+        _ => {
+            let mut s = "\"a string where an integer is required\"".to_string();
+            for _ in 0..depth {
+                s = format!("addi(score(t), {s})");
+            }
+            format!("{s} == 1")
+        }
     }
 }
 
-const GROWTH_SHAPES: usize = 6;
+const GROWTH_SHAPES: usize = 9;
 
 fn growth_case(ch: &mut Choices<'_>, st: &mut Stats) -> CaseResult {
     let shape = ch.draw(GROWTH_SHAPES);
@@ -613,8 +637,9 @@ fn growth_case(ch: &mut Choices<'_>, st: &mut Stats) -> CaseResult {
         };
         match ok {
             Err(p) => return Err(Fail::new("parse-panic", p, json!({"input": text}))),
-            Ok(Err(e)) => return Err(Fail::new("growth:well-typed-nest-rejected", e, json!({"input": text, "depth": depth}))),
-            Ok(Ok(())) => {}
+            Ok(Err(e)) if shape < 6 => return Err(Fail::new("growth:well-typed-nest-rejected", e, json!({"input": text, "depth": depth}))),
+            Ok(Ok(())) if shape >= 6 => return Err(Fail::new("growth:ill-formed-nest-accepted", "a nest with an unknown identifier / ill-typed literal at the bottom was accepted".to_string(), json!({"input": text, "depth": depth}))),
+            _ => {}
         }
         counts.push((depth, WORK.with(|w| w.get())));
     }
@@ -650,7 +675,7 @@ pub fn subs() -> Vec<Sub> {
 
 pub fn run(run: &Run) {
     run.rule(
-        "unicode: random strings over ASCII / language punctuation / whitespace incl. tab and CR / multi-byte and arbitrary code points; soup: 1-30 tokens from the language's alphabet (identifiers, operators and aliases, literal fragments, brackets, quote/raw-string/escape fragments, multi-byte chars); strings: a quoted / raw / unterminated literal assembled from letters, \\\" \\\\ \\xHH \\OOO escapes (valid and invalid, bytes >= 0x80), multi-byte characters and stray quotes, placed as map key, comparison / set / regex / wildcard right-hand side or function argument; mutated: valid filters printed from the full generator with 1-4 edits (insert/delete/duplicate/transpose/truncate/replace-with-multibyte/insert-token/drop-prefix); growth: six shapes of well-typed call nests (comparison / parenthesised / negated / chained logical arguments, as filter and as value expression) parsed at depth 4, 8 and 16 over a scheme whose function definition counts its parameter checks - the count must not grow by more than a factor 200 from depth 4 to 16 (any cubic polynomial stays below 64, doubling per level gives 4096); stress: 1e5-operand chains and 1e5-deep nestings (and their truncations) parsed in a child process on an 8 MiB-stack thread; each input goes through Scheme::parse and Scheme::parse_value; \
+        "unicode: random strings over ASCII / language punctuation / whitespace incl. tab and CR / multi-byte and arbitrary code points; soup: 1-30 tokens from the language's alphabet (identifiers, operators and aliases, literal fragments, brackets, quote/raw-string/escape fragments, multi-byte chars); strings: a quoted / raw / unterminated literal assembled from letters, \\\" \\\\ \\xHH \\OOO escapes (valid and invalid, bytes >= 0x80), multi-byte characters and stray quotes, placed as map key, comparison / set / regex / wildcard right-hand side or function argument; mutated: valid filters printed from the full generator with 1-4 edits (insert/delete/duplicate/transpose/truncate/replace-with-multibyte/insert-token/drop-prefix); growth: six shapes of well-typed call nests and three of nests that must be rejected (unknown field / unknown function / ill-typed literal at the bottom, a counted call beside it at every level) (comparison / parenthesised / negated / chained logical arguments, as filter and as value expression) parsed at depth 4, 8 and 16 over a scheme whose function definition counts its parameter checks - the count must not grow by more than a factor 200 from depth 4 to 16 (any cubic polynomial stays below 64, doubling per level gives 4096); stress: 1e5-operand chains and 1e5-deep nestings (and their truncations) parsed in a child process on an 8 MiB-stack thread; each input goes through Scheme::parse and Scheme::parse_value; \
          non-trivial = the input is accepted, or rejected with an error column > 1 (not at its first token); distinct by (entry point, input)",
     );
     run.assume("an abnormal child exit is a violation; a child that exceeds the watchdog is inconclusive");
